@@ -780,3 +780,91 @@ Definition env_ok (env : penv) (n : Z) : Prop :=
                                 | Some c => zlist_assoc (snd kv) c <> None
                                 end) l
   end.
+
+(* ------------------------------------------------------------------------------------------ *)
+(** * Specification of the replacement-string parser: a declarative $-grammar                   *)
+
+(* a parsed replacement: literal runes and references.  IRef n: n >= 0 is a group NUMBER,
+   -1 = $` , -2 = $' , -3 = $+ , -4 = $_ *)
+Inductive item : Type :=
+| ILit (c : Z)
+| IRef (n : Z).
+
+Definition ref_tok (slot : Z) : rtok :=
+  if slot =? -1 then TLeft else if slot =? -2 then TRight
+  else if slot =? -3 then TLast else if slot =? -4 then TWhole else TGroup slot.
+
+(* decimal value of a digit string *)
+Fixpoint dval_go (acc : Z) (ds : list Z) : Z :=
+  match ds with
+  | [] => acc
+  | c :: ds' => dval_go (acc * 10 + (c - 48)) ds'
+  end.
+Definition dval (ds : list Z) : Z := dval_go 0 ds.
+Definition digits (ds : list Z) : Prop := Forall (fun c => is_digit c = true) ds.
+Definition no_digit_head (p : list Z) : Prop :=
+  match p with [] => True | c :: _ => is_digit c = false end.
+
+Section Grammar.
+Variable is_word_char : Z -> bool.
+Variable is_ecma_start : Z -> bool.
+Variable is_ecma_char : Z -> bool.
+Variable env : penv.
+
+(* group number -> slot, as NewReplacerData maps it *)
+Definition slot_of (n : Z) : Z :=
+  if caps_nonempty env && (0 <=? n) then caps_lookup env n else n.
+
+(* items -> tokens: adjacent literal runes form one literal string *)
+Fixpoint compile_items (its : list item) (sb : list Z) : list rtok :=
+  match its with
+  | [] => if nonempty sb then [TLit sb] else []
+  | ILit c :: r => compile_items r (sb ++ [c])
+  | IRef n :: r => (if nonempty sb then [TLit sb] else []) ++ ref_tok (slot_of n) :: compile_items r []
+  end.
+
+(* [dollar_form p it rest]: the text p after a '$' starts with a recognised form meaning [it],
+   followed by [rest].  (The grammar describes accepted replacements; numbers above MaxInt32
+   and malformed ECMAScript names are rejected by the parser, see parser_error_codes.) *)
+Inductive dollar_form : list Z -> item -> list Z -> Prop :=
+| DF_dollar rest :                                                         (* $$ *)
+    dollar_form (36 :: rest) (ILit 36) rest
+| DF_special c rest :                                                      (* $& $` $' $+ $_ *)
+    special_capnum c <> 1 ->
+    dollar_form (c :: rest) (IRef (special_capnum c)) rest
+| DF_num ds rest :                                                         (* $n: ALL the digits, must be a group *)
+    use_e env = false -> ds <> [] -> digits ds -> no_digit_head rest ->
+    is_capture_slot env (dval ds) = true ->
+    dollar_form (ds ++ rest) (IRef (dval ds)) rest
+| DF_num_ecma ds rest :                                                    (* ECMAScript $n: the longest digit prefix that is a group *)
+    use_e env = true -> ds <> [] -> digits ds ->
+    is_capture_slot env (dval ds) = true ->
+    (forall more rest', more <> [] -> digits more -> rest = more ++ rest' ->
+                        is_capture_slot env (dval (ds ++ more)) = false) ->
+    dollar_form (ds ++ rest) (IRef (dval ds)) rest
+| DF_bnum ds rest :                                                        (* ${n} *)
+    ds <> [] -> digits ds -> is_capture_slot env (dval ds) = true ->
+    dollar_form (123 :: ds ++ 125 :: rest) (IRef (dval ds)) rest
+| DF_bname name rest :                                                     (* ${name} *)
+    use_e env = false -> name <> [] -> Forall (fun c => is_word_char c = true) name ->
+    is_digit (hd 0 name) = false -> is_word_char 125 = false ->
+    is_capture_name env name = true ->
+    dollar_form (123 :: name ++ 125 :: rest) (IRef (capture_slot_from_name env name)) rest
+| DF_bname_ecma c cs rest :                                                (* ECMAScript ${name}, name without \u escapes *)
+    use_e env = true -> is_digit c = false -> is_ecma_start c = true ->
+    Forall (fun x => is_ecma_char x = true) cs -> ~ In 92 (c :: cs) -> is_ecma_char 125 = false ->
+    is_capture_name env (map write_rune (c :: cs)) = true ->
+    dollar_form (123 :: (c :: cs) ++ 125 :: rest)
+                (IRef (capture_slot_from_name env (map write_rune (c :: cs)))) rest.
+
+(* the whole replacement string *)
+Inductive rep_spec : list Z -> list item -> Prop :=
+| RS_nil : rep_spec [] []
+| RS_char c s its :                                  (* any rune but '$' stands for itself *)
+    c <> 36 -> rep_spec s its -> rep_spec (c :: s) (ILit c :: its)
+| RS_form s it rest its :                            (* '$' followed by a recognised form *)
+    dollar_form s it rest -> rep_spec rest its -> rep_spec (36 :: s) (it :: its)
+| RS_literal s its :                                 (* any other '$' is a literal '$' *)
+    (forall it rest, ~ dollar_form s it rest) -> rep_spec s its -> rep_spec (36 :: s) (ILit 36 :: its).
+
+End Grammar.
